@@ -85,7 +85,16 @@ impl Scratch {
 		}
 		anyhow::bail!("no scratch directory")
 	}
-	fn fresh(&mut self) -> PathBuf { self.n += 1; let p = self.root.join(format!("d{}", self.n)); std::fs::create_dir(&p).expect("scratch sub-directory"); p }
+	/// a fresh, empty target directory.  Its own name rotates through shapes a directory walk might treat specially
+	/// (hidden, blank inside, non-ASCII, looking like a mapping file, below a hidden ancestor); the holder `d<N>` keeps
+	/// the scratch root tidy for `strays`.
+	fn fresh(&mut self) -> PathBuf {
+		self.n += 1;
+		const SHAPES: [&str; 8] = ["t", ".t", "t dir", ".git", "ünï", "t.mapping", ".hidden/t", "..t"];
+		let p = self.root.join(format!("d{}", self.n)).join(SHAPES[(self.n % SHAPES.len() as u64) as usize]);
+		std::fs::create_dir_all(&p).expect("scratch sub-directory");
+		p
+	}
 }
 impl Drop for Scratch { fn drop(&mut self) { let _ = std::fs::remove_dir_all(&self.root); } }
 
